@@ -172,6 +172,7 @@ def run_scenario(scenario, chooser=None, config_kwargs=None, max_steps=100000,
                 sched.yield_point('s3.' + kind)
         client.on_event = on_event
         cfg = TransferConfig(**(config_kwargs or {}))
+        run.config = cfg
         osu = LoggingOSUtils(I, OSUtils(), fs_fault)
         execs = []
         if nonthreaded:
